@@ -22,9 +22,9 @@ from jobs import JOBS, PROPS  # noqa: E402
 
 GUARD = 'PGM_INDEX_VERIF'
 CLANG = ['clang++-14', '-std=c++17', '-O1', '-fno-vectorize', '-fno-slp-vectorize', '-fno-unroll-loops', '-w',
-         '-mbmi2', '-D' + GUARD, '-DVERIF_MODEL', '-I' + os.path.join(ROOT, 'model'), '-I' + REPO + '/include',
+         '-mbmi', '-mbmi2', '-DNDEBUG', '-D' + GUARD, '-DVERIF_MODEL', '-I' + os.path.join(ROOT, 'model'), '-I' + REPO + '/include',
          '-I' + REPO + '/c-interface', '-S', '-emit-llvm']
-GXX = ['g++', '-std=c++17', '-O1', '-g', '-w', '-mbmi2', '-D' + GUARD, '-I' + REPO + '/include', '-I' + REPO + '/c-interface',
+GXX = ['g++', '-std=c++17', '-O1', '-g', '-w', '-mbmi', '-mbmi2', '-DNDEBUG', '-D' + GUARD, '-I' + REPO + '/include', '-I' + REPO + '/c-interface',
        '-fsanitize=address', '-fsanitize=float-cast-overflow,bounds,shift,null', '-fno-sanitize-recover=all']
 GCC_TWIN = ['gcc', '-O1', '-fno-strict-aliasing', '-fwrapv', '-w', '-DVERIF_TWIN', '-I' + os.path.join(ROOT, 'rt'),
             '-I' + os.path.join(ROOT, 'harness')]
@@ -80,7 +80,7 @@ def build_job(job, wd):
     t0 = time.time()
     with LL2C_LOCK:
         try:
-            ll2c.OPTS['narrow'] = job.get('narrow', 0); ll2c.OPTS['noop'] = job.get('noop', []); ll2c.OPTS['unreachable'] = job.get('unreachable', [])
+            ll2c.OPTS['narrow'] = job.get('narrow', 0); ll2c.OPTS['noop'] = job.get('noop', []); ll2c.OPTS['unreachable'] = job.get('unreachable', []); ll2c.OPTS['unreachable_def'] = job.get('unreachable_def', [])
             mod = ll2c.parse_module(open(ll).read())
             roots = job.get('roots') or [n for n in mod.forder if not re.match(r'@_Z|@__|@_GLOBAL', n)]
             csrc, ext = ll2c.translate(mod, roots)
